@@ -37,6 +37,18 @@ try:
     env = {"PYTHONPATH": f"{scratch}/src"}
     rc0, o0 = sh([PY, str(out / "demo.py")], cwd=str(out), env=env, timeout=900)
     report["demo_without_patch_exit"] = rc0
+    tests = meta.get("existing_tests_run", [])
+    files = sorted({w for t in tests for w in t.split() if w.endswith(".py") and "test" in w})
+    files = [f for f in files if (scratch / f).exists()]
+
+    def failing(label):
+        if not files:
+            return set()
+        rc2, o2 = sh([PY, "-m", "pytest", "-q", "-p", "no:cacheprovider", "-rfE", "--timeout=900", *files],
+                     cwd=str(scratch), env=env, timeout=3000)
+        report.setdefault("existing_tests", {"files": files})[label] = o2.strip().splitlines()[-1:]
+        return {l.split(" - ")[0] for l in o2.splitlines() if l.startswith(("FAILED ", "ERROR "))}
+    fail_before = failing("without_patch")
     rc, o = sh(["git", "-C", str(scratch), "apply", "--index", str(out / "patch.diff")])
     report["patch_applies"] = rc == 0
     if rc != 0:
@@ -44,14 +56,9 @@ try:
     rc1, o1 = sh([PY, str(out / "demo.py")], cwd=str(out), env=env, timeout=900)
     report["demo_with_patch_exit"] = rc1
     report["demo_with_patch_tail"] = o1[-600:]
-    tests = meta.get("existing_tests_run", [])
-    files = sorted({w for t in tests for w in t.split() if w.endswith(".py") and "test" in w})
-    files = [f if f.startswith("src/") else f for f in files]
-    files = [f for f in files if (scratch / f).exists()]
-    if files:
-        rc2, o2 = sh([PY, "-m", "pytest", "-q", "-p", "no:cacheprovider", "-x", "--timeout=900", *files], cwd=str(scratch), env=env, timeout=3000)
-        # compare with the unpatched tree only when something failed
-        report["existing_tests"] = {"files": files, "exit_with_patch": rc2, "tail": o2.strip().splitlines()[-1:] }
+    fail_after = failing("with_patch")
+    report.setdefault("existing_tests", {})["newly_failing"] = sorted(fail_after - fail_before)
+    report["existing_tests"]["exit_with_patch"] = 1 if (fail_after - fail_before) else 0
     t0 = time.time()
     rcq, oq = sh(["./check", pid, "--tier", "quick"], cwd="/verif", env={"VERIF_REPO": str(scratch)}, timeout=3000)
     report["check_quick"] = {"exit": rcq, "wall_s": round(time.time() - t0, 1),
